@@ -67,6 +67,7 @@ def main() -> int:
     rng = random.Random(common.seed() * 911 + 13)
     thorough = common.tier() == "thorough"
     srcs = gen_exps.flat_family(thorough)
+    srcs += [k["witness"] for k in rep.known if isinstance(k.get("witness"), str)]     # the recorded witness of every listed finding
     n_enum = len(srcs)
     for _ in range(6000 if thorough else 800):
         srcs.append(gen_exps.flat_random(rng, rng.choice([3, 5, 8])))
